@@ -121,14 +121,17 @@ def ptm5(ctx, rng, xr):
     fcut = float(rng.choice(f[1:-1])) if on_node else float(rng.uniform(f[0] * 1.001, f[-1] * 0.999))
     if not on_node and np.min(np.abs(f - fcut)) < 1e-9:
         on_node = True
-    key = "ptm5|%s|%s|lead=%d|cut=%s" % (stored, dt, len(lnames), "node" if on_node else "between")
+    interp = bool(rng.random() < 0.7)
+    key = "ptm5|%s|%s|lead=%d|cut=%s|interpolate=%s" % (stored, dt, len(lnames), "node" if on_node else "between", interp)
     try:
-        r = x.spec.partition.ptm5(fcut)
+        r = x.spec.partition.ptm5(fcut) if interp and rng.random() < 0.5 else x.spec.partition.ptm5(fcut, interpolate=interp)
     except Exception as e:
         rec.bad("ptm5", key, {"raised": repr(e)[:300], "fcut": fcut, "freq": f}, "ptm5-raises")
         return
     fo = r.freq.values.astype("float64")
-    want_f = f if on_node else np.sort(np.concatenate([f, [fcut]]))
+    want_f = f if (on_node or not interp) else np.sort(np.concatenate([f, [fcut]]))
+    if not interp:
+        on_node = True      # no interpolation: the input grid and values are kept, the cutoff still splits them
     if r.sizes.get("part") != 2 or not np.array_equal(np.sort(fo), want_f):
         rec.bad("ptm5", key, {"freq_out": fo, "want": want_f, "sizes": dict(r.sizes)}, "ptm5-output-grid")
         return
